@@ -4,9 +4,1142 @@ Import ListNotations.
 Require Import SR.Base.Res SR.Spec.Layout SR.Model.Layout SR.Model.LayoutValue.
 Open Scope nat_scope.
 
-Lemma index_refused : forall (B : Type) (dcount : list B -> nat) (r : list B) (v : vnav) st sz isz cnt it sch i,
-  vn_loc v = WArr st sz isz cnt it sch -> cnt <= i -> vnav_index dcount r v i = Err IndexError.
+(* ------------------------------------------------------------------ slices *)
+Lemma skipn_skipn' : forall {T} (a b : nat) (l : list T), skipn a (skipn b l) = skipn (b + a) l.
 Proof.
-  intros B dcount r v st sz isz cnt it sch i Hl Hi. unfold vnav_index. rewrite Hl.
-  destruct (cnt <=? i) eqn:E; [reflexivity|]. apply Nat.leb_gt in E. lia.
+  intros T a b. revert a. induction b as [|b IH]; intros a l; [reflexivity|].
+  destruct l as [|x l]; [now rewrite !skipn_nil|]. cbn [skipn plus]. apply IH.
 Qed.
+
+Lemma slice_slice : forall {T} (l : list T) s e a b,
+  s <= a -> b <= e -> slice (slice l s e) (a - s) (b - s) = slice l a b.
+Proof.
+  intros T l s e a b Hs He. unfold slice.
+  rewrite skipn_firstn_comm, skipn_skipn', firstn_firstn.
+  replace (s + (a - s)) with a by lia.
+  f_equal. lia.
+Qed.
+
+(* ------------------------------------------------------------------ seq_values *)
+Lemma seq_values_ext : forall {T} (f g : nat -> vres T) n i,
+  (forall j, i <= j < i + n -> f j = g j) -> seq_values f n i = seq_values g n i.
+Proof.
+  intros T f g n. induction n as [|n IH]; intros i H; [reflexivity|].
+  cbn [seq_values]. rewrite (H i) by lia. rewrite (IH (S i)); [reflexivity|]. intros j Hj. apply H. lia.
+Qed.
+
+Lemma seq_values_mono : forall {T} (f g : nat -> vres T) n i x,
+  (forall j y, f j = Some y -> g j = Some y) -> seq_values f n i = Some x -> seq_values g n i = Some x.
+Proof.
+  intros T f g n. induction n as [|n IH]; intros i x H E; [exact E|].
+  cbn [seq_values] in *.
+  destruct (f i) as [[y|e]|] eqn:Ef; [|rewrite (H _ _ Ef); exact E|discriminate].
+  rewrite (H _ _ Ef).
+  destruct (seq_values f n (S i)) as [[ys|e]|] eqn:Es; [| |discriminate].
+  - rewrite (IH _ _ H Es). exact E.
+  - rewrite (IH _ _ H Es). exact E.
+Qed.
+
+Lemma seq_values_nth : forall {T} (f : nat -> vres T) n i xs,
+  seq_values f n i = Some (Ok xs) ->
+  length xs = n /\ forall j, j < n -> exists x, nth_error xs j = Some x /\ f (i + j) = Some (Ok x).
+Proof.
+  intros T f n. induction n as [|n IH]; intros i xs E; cbn [seq_values] in E.
+  - inversion E. split; [reflexivity|]. intros j Hj. lia.
+  - destruct (f i) as [[y|e]|] eqn:Ef; try discriminate.
+    destruct (seq_values f n (S i)) as [[ys|e]|] eqn:Es; try discriminate.
+    inversion E; subst xs. destruct (IH _ _ Es) as [Hl Hn]. split; [cbn; lia|].
+    intros [|j] Hj.
+    + exists y. split; [reflexivity|]. now rewrite Nat.add_0_r.
+    + destruct (Hn j) as [x [H1 H2]]; [lia|]. exists x. split; [exact H1|].
+      now replace (i + S j) with (S i + j) by lia.
+Qed.
+
+Section Value.
+  Variable B : Type.
+  Variable dcount : list B -> nat.
+  Variable A : Type.
+  Variable dec : option key -> list B -> res A.
+
+  Notation pvA := (pv A).
+
+  (* ---------------------------------------------------------------- unfolding *)
+  Lemma vb_atom : forall r an d a st sz o,
+    value_body r dec an d (WAtom a st sz) o =
+    match dec a (slice r (st + o) (st + sz + o)) with Ok x => Some (Ok (PAtom x)) | Err e => Some (Err e) end.
+  Proof. reflexivity. Qed.
+  Lemma vb_arr : forall r an d st sz isz cnt it sch o,
+    value_body r dec an d (WArr st sz isz cnt it sch) o =
+    match seq_values (fun i => value_body r dec an d it (o + i * isz)) cnt 0 with
+    | None => None | Some (Err e) => Some (Err e) | Some (Ok xs) => Some (Ok (PList xs)) end.
+  Proof. reflexivity. Qed.
+  Lemma vb_obj : forall r an d st sz ps o,
+    value_body r dec an d (WObj st sz ps) o =
+    match props_body r dec an d ps o with
+    | None => None | Some (Err e) => Some (Err e) | Some (Ok dd) => Some (Ok (PDict dd)) end.
+  Proof. reflexivity. Qed.
+  Lemma vb_one : forall r an d st sz alts o,
+    value_body r dec an d (WOne st sz alts) o =
+    match alts with WANil => Some (Err ValueError) | WACons first _ => value_body r dec an d first o end.
+  Proof. reflexivity. Qed.
+  Lemma vb_ref : forall r an d st t o,
+    value_body r dec an d (WRef st t) o =
+    match wlookup t an with None => Some (Err KeyError) | Some target => d target o end.
+  Proof. reflexivity. Qed.
+  Lemma pb_nil : forall r an d o, props_body r dec an d WPNil o = Some (Ok []).
+  Proof. reflexivity. Qed.
+  Lemma pb_cons : forall r an d k l rest o,
+    props_body r dec an d (WPCons k l rest) o =
+    match value_body r dec an d l o with
+    | None => None
+    | Some (Err e) => Some (Err e)
+    | Some (Ok x) =>
+        match props_body r dec an d rest o with
+        | None => None | Some (Err e) => Some (Err e) | Some (Ok dd) => Some (Ok ((k, x) :: dd)) end
+    end.
+  Proof. reflexivity. Qed.
+  Lemma wvalue_0 : forall r an, wvalue r dec 0 an = value_body r dec an (fun _ _ => None).
+  Proof. reflexivity. Qed.
+  Lemma wvalue_S : forall r an f, wvalue r dec (S f) an = value_body r dec an (wvalue r dec f an).
+  Proof. reflexivity. Qed.
+
+  (* ---------------------------------------------------------------- fuel: results are stable once defined *)
+  Definition first_alt (P : wloc -> Prop) (ls : walts) : Prop :=
+    match ls with WANil => True | WACons l _ => P l end.
+
+  Lemma body_mono : forall (r : list B) (an : wanchors) (d1 d2 : wloc -> nat -> vres pvA),
+    (forall l o x, d1 l o = Some x -> d2 l o = Some x) ->
+    (forall l o x, value_body r dec an d1 l o = Some x -> value_body r dec an d2 l o = Some x)
+    /\ (forall ps o x, props_body r dec an d1 ps o = Some x -> props_body r dec an d2 ps o = Some x)
+    /\ (forall ls, first_alt (fun l => forall o x, value_body r dec an d1 l o = Some x -> value_body r dec an d2 l o = Some x) ls).
+  Proof.
+    intros r an d1 d2 Hd. apply wloc_wprops_walts_ind.
+    - intros a st sz o x E. exact E.
+    - intros st sz isz cnt it IH sch o x E. rewrite vb_arr in *.
+      destruct (seq_values (fun i => value_body r dec an d1 it (o + i * isz)) cnt 0) as [y|] eqn:Es; [|discriminate].
+      assert (Hm := seq_values_mono (fun i => value_body r dec an d1 it (o + i * isz))
+                      (fun i => value_body r dec an d2 it (o + i * isz)) cnt 0 y
+                      (fun j z => IH (o + j * isz) z) Es).
+      rewrite Hm. exact E.
+    - intros st sz ps IH o x E. rewrite vb_obj in *.
+      destruct (props_body r dec an d1 ps o) as [y|] eqn:Ep; [|discriminate].
+      rewrite (IH _ _ Ep). exact E.
+    - intros st sz alts IH o x E. rewrite vb_one in *. destruct alts as [|first rest]; [exact E|].
+      exact (IH o x E).
+    - intros st t o x E. rewrite vb_ref in *. destruct (wlookup t an); [|exact E]. exact (Hd _ _ _ E).
+    - intros o x E. exact E.
+    - intros k l IHl rest IHr o x E. rewrite pb_cons in *.
+      destruct (value_body r dec an d1 l o) as [[y|e]|] eqn:El; [|rewrite (IHl _ _ El); exact E|discriminate].
+      rewrite (IHl _ _ El).
+      destruct (props_body r dec an d1 rest o) as [z|] eqn:Er; [|discriminate].
+      rewrite (IHr _ _ Er). exact E.
+    - exact I.
+    - intros l IHl rest _. exact IHl.
+  Qed.
+
+  Lemma wvalue_mono_S : forall r an f l o x,
+    wvalue r dec f an l o = Some x -> wvalue r dec (S f) an l o = Some x.
+  Proof.
+    intros r an f. induction f as [|f IH]; intros l o x E.
+    - rewrite wvalue_S, wvalue_0 in *. revert E. apply (proj1 (body_mono r an _ _ (fun _ _ x (H : None = Some x) => False_ind _ (eq_ind None (fun v => match v with None => True | Some _ => False end) I _ H)))).
+    - rewrite wvalue_S in *. revert E. apply (proj1 (body_mono r an _ _ IH)).
+  Qed.
+
+  Lemma wvalue_mono : forall r an f f' l o x,
+    f <= f' -> wvalue r dec f an l o = Some x -> wvalue r dec f' an l o = Some x.
+  Proof.
+    intros r an f f' l o x Hle E. induction Hle as [|m _ IH]; [exact E|]. now apply wvalue_mono_S.
+  Qed.
+  (* ---------------------------------------------------------------- whole and part: names *)
+  Lemma props_body_lookup : forall r an d ps o dd,
+    props_body r dec an d ps o = Some (Ok dd) ->
+    map fst dd = wkeys ps /\
+    forall k, match wfind k ps with
+              | Some l => exists x, value_body r dec an d l o = Some (Ok x) /\ dlookup k dd = Some x
+              | None => dlookup k dd = None
+              end.
+  Proof.
+    intros r an d ps. induction ps as [|k0 l0 rest IH]; intros o dd E.
+    - rewrite pb_nil in E. inversion E. split; [reflexivity|]. intros k. reflexivity.
+    - rewrite pb_cons in E.
+      destruct (value_body r dec an d l0 o) as [[x0|e]|] eqn:El; try discriminate.
+      destruct (props_body r dec an d rest o) as [[dr|e]|] eqn:Er; try discriminate.
+      inversion E; subst dd. destruct (IH _ _ Er) as [Hk Hf]. split; [cbn; now rewrite Hk|].
+      intros k. cbn [wfind dlookup]. destruct (key_eqb k k0).
+      + exists x0. split; [exact El|reflexivity].
+      + apply Hf.
+  Qed.
+
+  Theorem commute_name : forall (r : list B) (v v' : vnav) (k : key) (d : list (key * pvA)),
+    vnav_value r dec v = Some (Ok (PDict d)) ->
+    vnav_name v k = Ok v' ->
+    exists x, dlookup k d = Some x /\ vnav_value r dec v' = Some (Ok x).
+  Proof.
+    intros r [l an] v' k d Hv Hn. unfold vnav_value, vnav_name in *. cbn [vn_loc vn_an] in *.
+    destruct l as [a st sz|st sz isz cnt it sch|st sz ps|st sz alts|st t]; try discriminate.
+    set (F := length an) in *.
+    assert (Hb : exists dr, (forall l o x, dr l o = Some x -> wvalue r dec F an l o = Some x) /\
+                            wvalue r dec F an = value_body r dec an dr).
+    { destruct F as [|f].
+      - exists (fun _ _ => None). split; [intros; discriminate|apply wvalue_0].
+      - exists (wvalue r dec f an). split; [intros; now apply wvalue_mono_S|apply wvalue_S]. }
+    destruct Hb as [dr [Hdr Hw]]. rewrite Hw in Hv. rewrite vb_obj in Hv.
+    destruct (props_body r dec an dr ps 0) as [[dd|e]|] eqn:Ep; try discriminate.
+    inversion Hv; subst dd. destruct (props_body_lookup _ _ _ _ _ _ Ep) as [_ Hf]. specialize (Hf k).
+    destruct (wfind k ps) as [c|]; [|discriminate].
+    destruct Hf as [x [Hx Hd]]. exists x. split; [exact Hd|].
+    destruct c as [a' st' sz'|st' sz' isz' cnt' it' sch'|st' sz' ps'|st' sz' alts'|st' t'];
+      try (inversion Hn; subst v'; cbn [vn_loc vn_an]; fold F; rewrite Hw; exact Hx).
+    rewrite vb_ref in Hx. destruct (wlookup t' an) as [target|]; [|discriminate].
+    inversion Hn; subst v'. cbn [vn_loc vn_an]. fold F. apply Hdr. exact Hx.
+  Qed.
+
+  (* a name of the schema can be navigated to whenever the whole value exists *)
+  Lemma name_total : forall (r : list B) (v : vnav) st sz ps (d : list (key * pvA)) k,
+    vn_loc v = WObj st sz ps ->
+    vnav_value r dec v = Some (Ok (PDict d)) ->
+    In k (wkeys ps) -> exists v', vnav_name v k = Ok v'.
+  Proof.
+    intros r [l an] st sz ps d k Hl Hv Hin. cbn [vn_loc] in Hl. subst l.
+    unfold vnav_value, vnav_name in *. cbn [vn_loc vn_an] in *.
+    set (F := length an) in *.
+    assert (Hb : exists dr, wvalue r dec F an = value_body r dec an dr).
+    { destruct F as [|f]; [exists (fun _ _ => None); apply wvalue_0|exists (wvalue r dec f an); apply wvalue_S]. }
+    destruct Hb as [dr Hw]. rewrite Hw, vb_obj in Hv.
+    destruct (props_body r dec an dr ps 0) as [[dd|e]|] eqn:Ep; try discriminate.
+    destruct (props_body_lookup _ _ _ _ _ _ Ep) as [_ Hf]. specialize (Hf k).
+    assert (Hsome : wfind k ps <> None).
+    { clear -Hin. induction ps as [|k0 l0 rest IH]; [destruct Hin|]. cbn [wfind wkeys] in *.
+      destruct (key_eqb k k0) eqn:E; [discriminate|]. destruct Hin as [H|H]; [|now apply IH].
+      subst k0. exfalso. clear -E. destruct k; cbn in E; now rewrite N.eqb_refl in E. }
+    destruct (wfind k ps) as [c|]; [|congruence]. destruct Hf as [x [Hx _]].
+    destruct c as [a' st' sz'|st' sz' isz' cnt' it' sch'|st' sz' ps'|st' sz' alts'|st' t']; try (eexists; reflexivity).
+    rewrite vb_ref in Hx. destruct (wlookup t' an); [eexists; reflexivity|discriminate].
+  Qed.
+
+  (* Row.values: the values of the top-level properties, in schema order *)
+  Theorem row_values_whole : forall (r : list B) (v : vnav) st sz ps (d : list (key * pvA)),
+    vn_loc v = WObj st sz ps ->
+    vnav_value r dec v = Some (Ok (PDict d)) ->
+    map fst d = wkeys ps /\
+    exists vs, row_values r dec v = Some (Ok vs) /\ Forall2 (fun k x => dlookup k d = Some x) (wkeys ps) vs.
+  Proof.
+    intros r v st sz ps d Hl Hv. split.
+    - destruct v as [l an]. cbn [vn_loc] in Hl. subst l. unfold vnav_value in Hv. cbn [vn_loc vn_an] in Hv.
+      set (F := length an) in *.
+      assert (Hb : exists dr, wvalue r dec F an = value_body r dec an dr).
+      { destruct F as [|f]; [exists (fun _ _ => None); apply wvalue_0|exists (wvalue r dec f an); apply wvalue_S]. }
+      destruct Hb as [dr Hw]. rewrite Hw, vb_obj in Hv.
+      destruct (props_body r dec an dr ps 0) as [[dd|e]|] eqn:Ep; try discriminate.
+      inversion Hv; subst dd. exact (proj1 (props_body_lookup _ _ _ _ _ _ Ep)).
+    - unfold row_values. rewrite Hl.
+      assert (Hall : forall ks, (forall k, In k ks -> In k (wkeys ps)) ->
+                exists vs, values_of r dec v ks = Some (Ok vs) /\ Forall2 (fun k x => dlookup k d = Some x) ks vs).
+      { induction ks as [|k ks IH]; intros Hsub.
+        - exists []. split; [reflexivity|constructor].
+        - destruct (name_total r v st sz ps d k Hl Hv (Hsub k (or_introl eq_refl))) as [v' Hn].
+          destruct (commute_name r v v' k d Hv Hn) as [x [Hd Hx]].
+          destruct IH as [vs [Hvs HF]]; [intros k' Hk'; apply Hsub; now right|].
+          exists (x :: vs). split; [|constructor; assumption].
+          cbn [values_of]. rewrite Hn, Hx, Hvs. reflexivity. }
+      apply Hall. auto.
+  Qed.
+
+  Lemma dlookup_nodup : forall (d : list (key * pvA)) vs,
+    NoDup (map fst d) -> Forall2 (fun k x => dlookup k d = Some x) (map fst d) vs -> vs = map snd d.
+  Proof.
+    assert (Hrefl : forall k, key_eqb k k = true) by (intros [i|i]; cbn; apply N.eqb_refl).
+    assert (Heq : forall a b, key_eqb a b = true -> a = b).
+    { intros [i|i] [j|j] E; cbn in E; try discriminate; apply N.eqb_eq in E; now subst. }
+    induction d as [|[k x] d IH]; intros vs Hnd HF.
+    - inversion HF. reflexivity.
+    - cbn [map fst snd] in *. inversion HF as [|k' y ks ys Hy Hrest]; subst. inversion Hnd as [|? ? Hnotin Hnd']; subst.
+      cbn [dlookup] in Hy. rewrite Hrefl in Hy. inversion Hy; subst y. f_equal. apply IH; [exact Hnd'|].
+      clear -Hrest Hnotin Heq. revert ys Hrest. induction (map fst d) as [|k1 ks IH2]; intros ys HF.
+      + inversion HF. constructor.
+      + inversion HF as [|? y1 ? ys1 Hy1 Hr1]; subst. constructor.
+        * cbn [dlookup] in Hy1. destruct (key_eqb k1 k) eqn:E; [|exact Hy1].
+          apply Heq in E. subst k1. exfalso. apply Hnotin. now left.
+        * apply IH2; [|exact Hr1]. intros H. apply Hnotin. now right.
+  Qed.
+
+  (* ---------------------------------------------------------------- frame: value() reads only its footprint *)
+  Lemma fb_atom : forall an df a st sz o, foot_body an df (WAtom a st sz) o = [(st + o, st + sz + o)].
+  Proof. reflexivity. Qed.
+  Lemma fb_arr : forall an df st sz isz cnt it sch o,
+    foot_body an df (WArr st sz isz cnt it sch) o = flat_map (fun i => foot_body an df it (o + i * isz)) (seq 0 cnt).
+  Proof. reflexivity. Qed.
+  Lemma fb_obj : forall an df st sz ps o, foot_body an df (WObj st sz ps) o = foot_props an df ps o.
+  Proof. reflexivity. Qed.
+  Lemma fb_one : forall an df st sz alts o,
+    foot_body an df (WOne st sz alts) o = match alts with WANil => [] | WACons first _ => foot_body an df first o end.
+  Proof. reflexivity. Qed.
+  Lemma fb_ref : forall an df st t o,
+    foot_body an df (WRef st t) o = match wlookup t an with None => [] | Some target => df target o end.
+  Proof. reflexivity. Qed.
+  Lemma fp_cons : forall an df k l rest o,
+    foot_props an df (WPCons k l rest) o = foot_body an df l o ++ foot_props an df rest o.
+  Proof. reflexivity. Qed.
+  Lemma wfoot_0 : forall an, wfoot 0 an = foot_body an (fun _ _ => []).
+  Proof. reflexivity. Qed.
+  Lemma wfoot_S : forall an f, wfoot (S f) an = foot_body an (wfoot f an).
+  Proof. reflexivity. Qed.
+
+  Definition agree_on (r r' : list B) (fp : list (nat * nat)) : Prop :=
+    forall a b, In (a, b) fp -> slice r a b = slice r' a b.
+
+  Lemma frame_body : forall (r r' : list B) (an : wanchors) (d d' : wloc -> nat -> vres pvA) df,
+    (forall l o, agree_on r r' (df l o) -> d l o = d' l o) ->
+    (forall l o, agree_on r r' (foot_body an df l o) -> value_body r dec an d l o = value_body r' dec an d' l o)
+    /\ (forall ps o, agree_on r r' (foot_props an df ps o) -> props_body r dec an d ps o = props_body r' dec an d' ps o)
+    /\ (forall ls, first_alt (fun l => forall o, agree_on r r' (foot_body an df l o) ->
+                                        value_body r dec an d l o = value_body r' dec an d' l o) ls).
+  Proof.
+    intros r r' an d d' df Hd. apply wloc_wprops_walts_ind.
+    - intros a st sz o H. rewrite !vb_atom. rewrite (H (st + o) (st + sz + o)); [reflexivity|]. rewrite fb_atom. now left.
+    - intros st sz isz cnt it IH sch o H. rewrite !vb_arr.
+      rewrite (seq_values_ext (fun i => value_body r dec an d it (o + i * isz))
+                              (fun i => value_body r' dec an d' it (o + i * isz)) cnt 0); [reflexivity|].
+      intros j Hj. apply IH. intros a b Hab. apply H. rewrite fb_arr. apply in_flat_map.
+      exists j. split; [apply in_seq; lia|exact Hab].
+    - intros st sz ps IH o H. rewrite !vb_obj. rewrite IH; [reflexivity|]. now rewrite fb_obj in H.
+    - intros st sz alts IH o H. rewrite !vb_one. destruct alts as [|first rest]; [reflexivity|].
+      apply IH. now rewrite fb_one in H.
+    - intros st t o H. rewrite !vb_ref. rewrite fb_ref in H. destruct (wlookup t an); [|reflexivity]. now apply Hd.
+    - intros o _. reflexivity.
+    - intros k l IHl rest IHr o H. rewrite !pb_cons. rewrite fp_cons in H.
+      rewrite IHl by (intros a b Hab; apply H; apply in_or_app; now left).
+      rewrite IHr by (intros a b Hab; apply H; apply in_or_app; now right). reflexivity.
+    - exact I.
+    - intros l IHl rest _. exact IHl.
+  Qed.
+
+  Lemma frame_wvalue : forall (r r' : list B) an f l o,
+    agree_on r r' (wfoot f an l o) -> wvalue r dec f an l o = wvalue r' dec f an l o.
+  Proof.
+    intros r r' an f. induction f as [|f IH]; intros l o H.
+    - rewrite !wvalue_0. rewrite wfoot_0 in H. revert H. apply (proj1 (frame_body r r' an _ _ _ (fun _ _ _ => eq_refl))).
+    - rewrite !wvalue_S. rewrite wfoot_S in H. revert H. apply (proj1 (frame_body r r' an _ _ _ IH)).
+  Qed.
+
+  (* non-interference: two records that agree on the bytes of a location give the same value there,
+     error status included, whatever the rest of the records holds *)
+  Theorem lazy_value : forall (r r' : list B) (v : vnav),
+    foot_inside v = true ->
+    vnav_raw r v = vnav_raw r' v ->
+    vnav_value r dec v = vnav_value r' dec v.
+  Proof.
+    intros r r' v Hin Hraw. unfold vnav_value. apply frame_wvalue. intros a b Hab.
+    unfold foot_inside in Hin. rewrite forallb_forall in Hin. specialize (Hin _ Hab). cbn [fst snd] in Hin.
+    apply andb_prop in Hin. destruct Hin as [H1 H2]. apply Nat.leb_le in H1. apply Nat.leb_le in H2.
+    rewrite <- (slice_slice r _ _ a b H1 H2), <- (slice_slice r' _ _ a b H1 H2).
+    unfold vnav_raw in Hraw. now rewrite Hraw.
+  Qed.
+
+  (* an elementary item: its value is its own decoder applied to its own raw bytes *)
+  Theorem atom_value : forall (r : list B) (v : vnav) a st sz,
+    vn_loc v = WAtom a st sz ->
+    vnav_value r dec v = match dec a (vnav_raw r v) with Ok x => Some (Ok (PAtom x)) | Err e => Some (Err e) end.
+  Proof.
+    intros r [l an] a st sz Hl. cbn [vn_loc] in Hl. subst l. unfold vnav_value, vnav_raw, wend. cbn [vn_loc vn_an wstart wsize].
+    destruct (length an); [rewrite wvalue_0|rewrite wvalue_S]; rewrite vb_atom; now rewrite !Nat.add_0_r.
+  Qed.
+
+  (* ---------------------------------------------------------------- raw bytes *)
+  Theorem raw_slice : forall (r : list B) (v v' : vnav),
+    wstart (vn_loc v) <= wstart (vn_loc v') -> wend (vn_loc v') <= wend (vn_loc v) ->
+    vnav_raw r v' = slice (vnav_raw r v) (wstart (vn_loc v') - wstart (vn_loc v)) (wend (vn_loc v') - wstart (vn_loc v)).
+  Proof. intros r v v' H1 H2. unfold vnav_raw. symmetry. now apply slice_slice. Qed.
+
+  (* ---------------------------------------------------------------- schemas without OCCURS DEPENDING ON *)
+  Fixpoint odo_free (s : js) : bool :=
+    match s with
+    | JAtom _ _ => true
+    | JArr _ _ its => odo_free its
+    | JOdo _ _ _ => false
+    | JObj _ ps => odo_free_props ps
+    | JOne _ alts => odo_free_alts alts
+    | JRef _ => true
+    end
+  with odo_free_props (ps : props) : bool :=
+    match ps with PNil => true | PCons _ s r => odo_free s && odo_free_props r end
+  with odo_free_alts (alts : jalts) : bool :=
+    match alts with ANil => true | ACons s r => odo_free s && odo_free_alts r end.
+
+  Lemma simple_odo_free :
+    (forall s, simple s = true -> odo_free s = true)
+    /\ (forall ps, simple_props ps = true -> odo_free_props ps = true)
+    /\ (forall alts, simple_alts alts = true -> odo_free_alts alts = true).
+  Proof.
+    apply js_props_alts_ind; cbn [simple simple_props simple_alts odo_free odo_free_props odo_free_alts]; intros; auto; try discriminate.
+    - apply andb_prop in H1. destruct H1. rewrite H, H0; auto.
+    - apply andb_prop in H1. destruct H1. rewrite H, H0; auto.
+  Qed.
+
+  Definition shift_an (d : nat) (an : wanchors) : wanchors := map (fun p => (fst p, wshift d (snd p))) an.
+
+  Lemma wsize_shift : forall d l, wsize (wshift d l) = wsize l.
+  Proof. intros d l. destruct l; reflexivity. Qed.
+  Lemma wstart_shift : forall d l, wstart (wshift d l) = wstart l + d.
+  Proof. intros d l. destruct l; reflexivity. Qed.
+  Lemma wmax_shift : forall d ls, wmax_size (wshift_alts d ls) = wmax_size ls.
+  Proof. intros d ls. induction ls as [|l r IH]; [reflexivity|]. cbn [wshift_alts wmax_size]. now rewrite wsize_shift, IH. Qed.
+  Lemma wreg_shift : forall d a l new an0,
+    shift_an d (wreg a l new) ++ an0 = wreg a (wshift d l) (shift_an d new ++ an0).
+  Proof. intros d a l new an0. destruct a; reflexivity. Qed.
+  Lemma wreg_app : forall a l new an, wreg a l (new ++ an) = wreg a l new ++ an.
+  Proof. intros a l new an. destruct a; reflexivity. Qed.
+
+  Section Rec.
+    Variable r : list B.
+
+    Lemma walkv_atom : forall a sz st an, walkv dcount r (JAtom a sz) st an = Ok (WAtom a st sz, wreg a (WAtom a st sz) an).
+    Proof. reflexivity. Qed.
+    Lemma walkv_arr : forall a n its st an,
+      walkv dcount r (JArr a n its) st an =
+      match walkv dcount r its st an with
+      | Err e => Err e
+      | Ok (sub, an1) => Ok (WArr st (wsize sub * n) (wsize sub) n sub its, wreg a (WArr st (wsize sub * n) (wsize sub) n sub its) an1)
+      end.
+    Proof. reflexivity. Qed.
+    Lemma walkv_odo : forall a c its st an,
+      walkv dcount r (JOdo a c its) st an =
+      match wlookup (KName c) an with
+      | None => Err KeyError
+      | Some (WAtom _ cst csz) =>
+          match walkv dcount r its st an with
+          | Err e => Err e
+          | Ok (sub, an1) =>
+              Ok (WArr st (wsize sub * dcount (slice r cst (cst + csz))) (wsize sub) (dcount (slice r cst (cst + csz))) sub its,
+                  wreg a (WArr st (wsize sub * dcount (slice r cst (cst + csz))) (wsize sub) (dcount (slice r cst (cst + csz))) sub its) an1)
+          end
+      | Some _ => Err TypeError
+      end.
+    Proof. reflexivity. Qed.
+    Lemma walkv_obj : forall a ps st an,
+      walkv dcount r (JObj a ps) st an =
+      match walkv_props dcount r ps st an with
+      | Err e => Err e
+      | Ok (pls, off, an1) => Ok (WObj st (off - st) pls, wreg a (WObj st (off - st) pls) an1)
+      end.
+    Proof. reflexivity. Qed.
+    Lemma walkv_one : forall a s0 rest st an,
+      walkv dcount r (JOne a (ACons s0 rest)) st an =
+      match walkv_alts dcount r (ACons s0 rest) st an with
+      | Err e => Err e
+      | Ok (als, an1) => Ok (WOne st (wmax_size als) als, wreg a (WOne st (wmax_size als) als) an1)
+      end.
+    Proof. reflexivity. Qed.
+    Lemma walkv_one_nil : forall a st an, walkv dcount r (JOne a ANil) st an = Err ValueError.
+    Proof. reflexivity. Qed.
+    Lemma walkv_ref : forall t st an, walkv dcount r (JRef t) st an = Ok (WRef st t, an).
+    Proof. reflexivity. Qed.
+    Lemma walkv_props_nil : forall off an, walkv_props dcount r PNil off an = Ok (WPNil, off, an).
+    Proof. reflexivity. Qed.
+    Lemma walkv_props_cons : forall k p rest off an,
+      walkv_props dcount r (PCons k p rest) off an =
+      match walkv dcount r p off an with
+      | Err e => Err e
+      | Ok (pl, an1) =>
+          match walkv_props dcount r rest (off + wsize pl) (wreg (js_anchor p) pl an1) with
+          | Err e => Err e
+          | Ok (rl, off', an2) => Ok (WPCons k pl rl, off', an2)
+          end
+      end.
+    Proof. reflexivity. Qed.
+    Lemma walkv_alts_nil : forall st an, walkv_alts dcount r ANil st an = Ok (WANil, an).
+    Proof. reflexivity. Qed.
+    Lemma walkv_alts_cons : forall s rest st an,
+      walkv_alts dcount r (ACons s rest) st an =
+      match walkv dcount r s st an with
+      | Err e => Err e
+      | Ok (l, an1) =>
+          match walkv_alts dcount r rest st an1 with
+          | Err e => Err e
+          | Ok (ls, an2) => Ok (WACons l ls, an2)
+          end
+      end.
+    Proof. reflexivity. Qed.
+
+    (* walking an ODO-free schema somewhere else, with other anchors, gives the same tree moved *)
+    Lemma walkv_shift :
+      (forall s, odo_free s = true -> forall st an l an', walkv dcount r s st an = Ok (l, an') ->
+         exists new, an' = new ++ an /\
+           forall d an0, walkv dcount r s (st + d) an0 = Ok (wshift d l, shift_an d new ++ an0))
+      /\ (forall ps, odo_free_props ps = true -> forall off an pls off' an', walkv_props dcount r ps off an = Ok (pls, off', an') ->
+         exists new, an' = new ++ an /\
+           forall d an0, walkv_props dcount r ps (off + d) an0 = Ok (wshift_props d pls, off' + d, shift_an d new ++ an0))
+      /\ (forall alts, odo_free_alts alts = true -> forall st an als an', walkv_alts dcount r alts st an = Ok (als, an') ->
+         exists new, an' = new ++ an /\
+           forall d an0, walkv_alts dcount r alts (st + d) an0 = Ok (wshift_alts d als, shift_an d new ++ an0)).
+    Proof.
+      apply js_props_alts_ind.
+      - intros a sz _ st an l an' E. rewrite walkv_atom in E. inversion E; subst.
+        exists (wreg a (WAtom a st sz) []). split; [now rewrite <- wreg_app|].
+        intros d an0. rewrite walkv_atom. now rewrite wreg_shift.
+      - intros a n its IH Hof st an l an' E. rewrite walkv_arr in E. cbn [odo_free odo_free_props odo_free_alts] in Hof.
+        destruct (walkv dcount r its st an) as [[sub an1]|e] eqn:Es; [|discriminate].
+        inversion E; subst. destruct (IH Hof _ _ _ _ Es) as [new [Hn Hs]]. subst an1.
+        exists (wreg a (WArr st (wsize sub * n) (wsize sub) n sub its) new). split; [now rewrite wreg_app|].
+        intros d an0. rewrite walkv_arr, Hs. rewrite wreg_shift. cbn [wshift]. now rewrite wsize_shift.
+      - intros a c its _ Hof. discriminate.
+      - intros a ps IH Hof st an l an' E. rewrite walkv_obj in E. cbn [odo_free odo_free_props odo_free_alts] in Hof.
+        destruct (walkv_props dcount r ps st an) as [[[pls off] an1]|e] eqn:Es; [|discriminate].
+        inversion E; subst. destruct (IH Hof _ _ _ _ _ Es) as [new [Hn Hs]]. subst an1.
+        exists (wreg a (WObj st (off - st) pls) new). split; [now rewrite wreg_app|].
+        intros d an0. rewrite walkv_obj, Hs. rewrite wreg_shift. cbn [wshift].
+        replace (off + d - (st + d)) with (off - st) by lia. reflexivity.
+      - intros a alts IH Hof st an l an' E. cbn [odo_free odo_free_props odo_free_alts] in Hof.
+        destruct alts as [|s0 rest]; [discriminate|]. rewrite walkv_one in E.
+        destruct (walkv_alts dcount r (ACons s0 rest) st an) as [[als an1]|e] eqn:Es; [|discriminate].
+        inversion E; subst. destruct (IH Hof _ _ _ _ Es) as [new [Hn Hs]]. subst an1.
+        exists (wreg a (WOne st (wmax_size als) als) new). split; [now rewrite wreg_app|].
+        intros d an0. rewrite walkv_one, Hs. rewrite wreg_shift. cbn [wshift]. now rewrite wmax_shift.
+      - intros t _ st an l an' E. rewrite walkv_ref in E. inversion E; subst. exists []. split; [reflexivity|].
+        intros d an0. reflexivity.
+      - intros _ off an pls off' an' E. rewrite walkv_props_nil in E. inversion E; subst. exists []. split; [reflexivity|].
+        intros d an0. reflexivity.
+      - intros k s IHs rest IHr Hof off an pls off' an' E. rewrite walkv_props_cons in E. cbn [odo_free odo_free_props odo_free_alts] in Hof.
+        apply andb_prop in Hof. destruct Hof as [Hs Hr].
+        destruct (walkv dcount r s off an) as [[pl an1]|e] eqn:Es; [|discriminate].
+        destruct (walkv_props dcount r rest (off + wsize pl) (wreg (js_anchor s) pl an1)) as [[[rl off1] an2]|e] eqn:Er; [|discriminate].
+        inversion E; subst. destruct (IHs Hs _ _ _ _ Es) as [new1 [Hn1 Hs1]]. subst an1.
+        destruct (IHr Hr _ _ _ _ _ Er) as [new2 [Hn2 Hs2]]. subst an'.
+        exists (new2 ++ wreg (js_anchor s) pl new1). split; [now rewrite <- app_assoc, wreg_app|].
+        intros d an0. rewrite walkv_props_cons, Hs1. rewrite wsize_shift.
+        replace (off + d + wsize pl) with (off + wsize pl + d) by lia.
+        rewrite <- wreg_shift. rewrite Hs2. cbn [wshift_props]. unfold shift_an. now rewrite map_app, <- app_assoc.
+      - intros _ st an als an' E. rewrite walkv_alts_nil in E. inversion E; subst. exists []. split; [reflexivity|].
+        intros d an0. reflexivity.
+      - intros s IHs rest IHr Hof st an als an' E. rewrite walkv_alts_cons in E. cbn [odo_free odo_free_props odo_free_alts] in Hof.
+        apply andb_prop in Hof. destruct Hof as [Hs Hr].
+        destruct (walkv dcount r s st an) as [[l an1]|e] eqn:Es; [|discriminate].
+        destruct (walkv_alts dcount r rest st an1) as [[ls an2]|e] eqn:Er; [|discriminate].
+        inversion E; subst. destruct (IHs Hs _ _ _ _ Es) as [new1 [Hn1 Hs1]]. subst an1.
+        destruct (IHr Hr _ _ _ _ Er) as [new2 [Hn2 Hs2]]. subst an'.
+        exists (new2 ++ new1). split; [now rewrite <- app_assoc|].
+        intros d an0. rewrite walkv_alts_cons, Hs1, Hs2. cbn [wshift_alts]. unfold shift_an. now rewrite map_app, <- app_assoc.
+    Qed.
+  End Rec.
+
+  (* ---------------------------------------------------------------- shape of walk-produced trees *)
+  Fixpoint chain (ps : wprops) (off : nat) : nat :=
+    match ps with WPNil => off | WPCons _ l rest => chain rest (off + wsize l) end.
+
+  Lemma chain_ge : forall ps off, off <= chain ps off.
+  Proof. induction ps as [|k l rest IH]; intros off; cbn [chain]; [lia|]. specialize (IH (off + wsize l)). lia. Qed.
+
+  Definition all_an (P : wloc -> Prop) (an : wanchors) : Prop := forall k l, In (k, l) an -> P l.
+
+  Lemma all_an_wreg : forall (P : wloc -> Prop) a l an, P l -> all_an P an -> all_an P (wreg a l an).
+  Proof.
+    intros P a l an Hl Han. destruct a as [k|]; [|exact Han]. intros k' l' [H|H]; [inversion H; now subst|eauto].
+  Qed.
+
+  Lemma wlookup_in : forall t an l, wlookup t an = Some l -> exists k, In (k, l) an.
+  Proof.
+    intros t an. induction an as [|[k' l'] an IH]; intros l H; [discriminate|]. cbn [wlookup] in H.
+    destruct (key_eqb t k').
+    - inversion H; subst. exists k'. now left.
+    - destruct (IH _ H) as [k Hk]. exists k. now right.
+  Qed.
+
+  Fixpoint ref_free (l : wloc) : bool :=
+    match l with
+    | WAtom _ _ _ => true
+    | WArr _ _ _ _ it _ => ref_free it
+    | WObj _ _ ps => ref_free_props ps
+    | WOne _ _ alts => ref_free_alts alts
+    | WRef _ _ => false
+    end
+  with ref_free_props (ps : wprops) : bool :=
+    match ps with WPNil => true | WPCons _ l r => ref_free l && ref_free_props r end
+  with ref_free_alts (ls : walts) : bool :=
+    match ls with WANil => true | WACons l r => ref_free l && ref_free_alts r end.
+
+  (* a location without $ref: its value does not depend on the anchors or the fuel, and moving the
+     location is the same as moving the offset *)
+  Lemma shift_reffree : forall (r : list B) an d an' d' D,
+    (forall l, ref_free l = true -> forall o, value_body r dec an' d' (wshift D l) o = value_body r dec an d l (o + D))
+    /\ (forall ps, ref_free_props ps = true -> forall o, props_body r dec an' d' (wshift_props D ps) o = props_body r dec an d ps (o + D))
+    /\ (forall ls, ref_free_alts ls = true ->
+          first_alt (fun l => forall o, value_body r dec an' d' (wshift D l) o = value_body r dec an d l (o + D)) ls).
+  Proof.
+    intros r an d an' d' D. apply wloc_wprops_walts_ind.
+    - intros a st sz _ o. cbn [wshift]. rewrite !vb_atom.
+      replace (st + D + o) with (st + (o + D)) by lia. replace (st + D + sz + o) with (st + sz + (o + D)) by lia. reflexivity.
+    - intros st sz isz cnt it IH sch Hrf o. cbn [wshift ref_free ref_free_props ref_free_alts] in *. rewrite !vb_arr.
+      rewrite (seq_values_ext (fun i => value_body r dec an' d' (wshift D it) (o + i * isz))
+                              (fun i => value_body r dec an d it (o + D + i * isz)) cnt 0); [reflexivity|].
+      intros j _. rewrite IH by exact Hrf. f_equal. lia.
+    - intros st sz ps IH Hrf o. cbn [wshift ref_free ref_free_props ref_free_alts] in *. rewrite !vb_obj. now rewrite IH.
+    - intros st sz alts IH Hrf o. cbn [wshift ref_free ref_free_props ref_free_alts] in *. rewrite !vb_one.
+      destruct alts as [|first rest]; [reflexivity|]. cbn [wshift_alts]. exact (IH Hrf o).
+    - intros st t Hrf. discriminate.
+    - intros _ o. reflexivity.
+    - intros k l IHl rest IHr Hrf o. cbn [wshift_props ref_free ref_free_props ref_free_alts] in *.
+      apply andb_prop in Hrf. destruct Hrf as [H1 H2]. rewrite !pb_cons. now rewrite IHl, IHr.
+    - intros _. exact I.
+    - intros l IHl rest _ Hrf. cbn [ref_free ref_free_props ref_free_alts] in Hrf. apply andb_prop in Hrf. exact (IHl (proj1 Hrf)).
+  Qed.
+
+  Lemma wshift_0 :
+    (forall l, wshift 0 l = l) /\ (forall ps, wshift_props 0 ps = ps) /\ (forall ls, wshift_alts 0 ls = ls).
+  Proof.
+    apply wloc_wprops_walts_ind; intros; cbn [wshift wshift_props wshift_alts]; rewrite ?Nat.add_0_r; congruence.
+  Qed.
+
+  Section Shape.
+    Variable r : list B.
+
+    Fixpoint wf (l : wloc) : Prop :=
+      match l with
+      | WAtom _ _ _ => True
+      | WRef _ _ => True
+      | WArr st sz isz cnt it sch =>
+          wstart it = st /\ wsize it = isz /\ sz = isz * cnt /\ wf it
+          /\ exists an0 an1, walkv dcount r sch st an0 = Ok (it, an1)
+      | WObj st sz ps => wf_props ps st /\ st + sz = chain ps st
+      | WOne st sz alts => wf_alts alts st sz
+      end
+    with wf_props (ps : wprops) (off : nat) : Prop :=
+      match ps with
+      | WPNil => True
+      | WPCons _ l rest => wstart l = off /\ wf l /\ wf_props rest (off + wsize l)
+      end
+    with wf_alts (ls : walts) (st sz : nat) : Prop :=
+      match ls with
+      | WANil => True
+      | WACons l rest => wstart l = st /\ wsize l <= sz /\ wf l /\ wf_alts rest st sz
+      end.
+
+    Lemma wf_alts_weaken : forall ls st sz sz', sz <= sz' -> wf_alts ls st sz -> wf_alts ls st sz'.
+    Proof.
+      induction ls as [|l rest IH]; intros st sz sz' Hle H; [exact I|]. cbn [wf_alts] in *.
+      destruct H as [H1 [H2 [H3 H4]]]. repeat split; try assumption; [lia|eauto].
+    Qed.
+
+    Lemma walkv_wf :
+      (forall s st an l an', walkv dcount r s st an = Ok (l, an') ->
+         wstart l = st /\ wf l /\ (all_an wf an -> all_an wf an'))
+      /\ (forall ps off an pls off' an', walkv_props dcount r ps off an = Ok (pls, off', an') ->
+         wf_props pls off /\ off' = chain pls off /\ (all_an wf an -> all_an wf an'))
+      /\ (forall alts st an als an', walkv_alts dcount r alts st an = Ok (als, an') ->
+         wf_alts als st (wmax_size als) /\ (all_an wf an -> all_an wf an')).
+    Proof.
+      apply js_props_alts_ind.
+      - intros a sz st an l an' E. rewrite walkv_atom in E. inversion E; subst. repeat split.
+        intros H. now apply all_an_wreg.
+      - intros a n its IH st an l an' E. rewrite walkv_arr in E.
+        destruct (walkv dcount r its st an) as [[sub an1]|e] eqn:Es; [|discriminate].
+        inversion E; subst. destruct (IH _ _ _ _ Es) as [H1 [H2 H3]].
+        assert (Hw : wf (WArr st (wsize sub * n) (wsize sub) n sub its)).
+        { cbn [wf]. repeat split; try assumption. eauto. }
+        repeat split; try assumption; [eauto|]. intros H. apply all_an_wreg; auto.
+      - intros a c its IH st an l an' E. rewrite walkv_odo in E.
+        destruct (wlookup (KName c) an) as [[ca cst csz| | | |]|]; try discriminate.
+        destruct (walkv dcount r its st an) as [[sub an1]|e] eqn:Es; [|discriminate].
+        inversion E; subst. destruct (IH _ _ _ _ Es) as [H1 [H2 H3]].
+        set (n := dcount (slice r cst (cst + csz))) in *.
+        assert (Hw : wf (WArr st (wsize sub * n) (wsize sub) n sub its)).
+        { cbn [wf]. repeat split; try assumption. eauto. }
+        repeat split; try assumption; [eauto|]. intros H. apply all_an_wreg; auto.
+      - intros a ps IH st an l an' E. rewrite walkv_obj in E.
+        destruct (walkv_props dcount r ps st an) as [[[pls off] an1]|e] eqn:Es; [|discriminate].
+        inversion E; subst. destruct (IH _ _ _ _ _ Es) as [H1 [H2 H3]].
+        assert (Hw : wf (WObj st (off - st) pls)).
+        { cbn [wf]. split; [exact H1|]. pose proof (chain_ge pls st). lia. }
+        repeat split; try assumption; [exact (proj2 Hw)|]. intros H. apply all_an_wreg; auto.
+      - intros a alts IH st an l an' E. destruct alts as [|s0 rest]; [discriminate|]. rewrite walkv_one in E.
+        destruct (walkv_alts dcount r (ACons s0 rest) st an) as [[als an1]|e] eqn:Es; [|discriminate].
+        inversion E; subst. destruct (IH _ _ _ _ Es) as [H1 H3].
+        repeat split; try assumption. intros H. apply all_an_wreg; auto.
+      - intros t st an l an' E. rewrite walkv_ref in E. inversion E; subst. repeat split. auto.
+      - intros off an pls off' an' E. rewrite walkv_props_nil in E. inversion E; subst. repeat split. auto.
+      - intros k s IHs rest IHr off an pls off' an' E. rewrite walkv_props_cons in E.
+        destruct (walkv dcount r s off an) as [[pl an1]|e] eqn:Es; [|discriminate].
+        destruct (walkv_props dcount r rest (off + wsize pl) (wreg (js_anchor s) pl an1)) as [[[rl off1] an2]|e] eqn:Er; [|discriminate].
+        inversion E; subst. destruct (IHs _ _ _ _ Es) as [H1 [H2 H3]]. destruct (IHr _ _ _ _ _ Er) as [G1 [G2 G3]].
+        cbn [wf_props chain]. repeat split; try assumption.
+        intros H. apply G3. apply all_an_wreg; auto.
+      - intros st an als an' E. rewrite walkv_alts_nil in E. inversion E; subst. split; [exact I|auto].
+      - intros s IHs rest IHr st an als an' E. rewrite walkv_alts_cons in E.
+        destruct (walkv dcount r s st an) as [[l an1]|e] eqn:Es; [|discriminate].
+        destruct (walkv_alts dcount r rest st an1) as [[ls an2]|e] eqn:Er; [|discriminate].
+        inversion E; subst. destruct (IHs _ _ _ _ Es) as [H1 [H2 H3]]. destruct (IHr _ _ _ _ Er) as [G1 G3].
+        cbn [wf_alts wmax_size]. repeat split; try assumption; [lia| |auto].
+        apply (wf_alts_weaken _ _ (wmax_size ls)); [lia|exact G1].
+    Qed.
+
+    Lemma wf_props_find : forall ps off k c,
+      wf_props ps off -> wfind k ps = Some c -> wf c /\ off <= wstart c /\ wend c <= chain ps off.
+    Proof.
+      induction ps as [|k0 l rest IH]; intros off k c Hw Hf; [discriminate|]. cbn [wf_props wfind chain] in *.
+      destruct Hw as [H1 [H2 H3]]. destruct (key_eqb k k0).
+      - inversion Hf; subst c. split; [exact H2|]. unfold wend. pose proof (chain_ge rest (off + wsize l)). lia.
+      - destruct (IH _ _ _ H3 Hf) as [G1 [G2 G3]]. split; [exact G1|]. lia.
+    Qed.
+
+    (* what holds of every navigator obtained from vnav_of by name / index steps *)
+    Definition inv (v : vnav) : Prop := wf (vn_loc v) /\ all_an wf (vn_an v).
+
+    Lemma inv_of : forall s v, vnav_of dcount r s = Ok v -> inv v.
+    Proof.
+      intros s v E. unfold vnav_of in E. destruct (walkv dcount r s 0 []) as [[l an]|e] eqn:Ew; [|discriminate].
+      inversion E; subst. destruct (proj1 walkv_wf _ _ _ _ _ Ew) as [_ [H2 H3]]. split; [exact H2|].
+      apply H3. intros k l' [].
+    Qed.
+
+    Lemma inv_name : forall v k v', inv v -> vnav_name v k = Ok v' -> inv v'.
+    Proof.
+      intros [l an] k v' [Hw Ha] E. unfold vnav_name in E. cbn [vn_loc vn_an] in *.
+      destruct l as [a st sz|st sz isz cnt it sch|st sz ps|st sz alts|st t]; try discriminate.
+      destruct (wfind k ps) as [c|] eqn:Ef; [|discriminate]. cbn [wf] in Hw.
+      destruct (wf_props_find _ _ _ _ (proj1 Hw) Ef) as [Hc _].
+      destruct c as [a' st' sz'|st' sz' isz' cnt' it' sch'|st' sz' ps'|st' sz' alts'|st' t'];
+        try (inversion E; subst v'; split; assumption).
+      destruct (wlookup t' an) as [target|] eqn:El; [|discriminate]. inversion E; subst v'.
+      split; [|exact Ha]. cbn [vn_loc]. destruct (wlookup_in _ _ _ El) as [k' Hin]. exact (Ha _ _ Hin).
+    Qed.
+
+    Lemma inv_index : forall v i v', vnav_index dcount r v i = Ok v' -> inv v'.
+    Proof.
+      intros [l an] i v' E. unfold vnav_index in E. cbn [vn_loc vn_an] in *.
+      destruct l as [a st sz|st sz isz cnt it sch|st sz ps|st sz alts|st t]; try discriminate.
+      destruct (cnt <=? i); [discriminate|].
+      destruct (walkv dcount r sch (st + isz * i) []) as [[l' an']|e] eqn:Ew; [|discriminate].
+      inversion E; subst. destruct (proj1 walkv_wf _ _ _ _ _ Ew) as [_ [H2 H3]]. split; [exact H2|].
+      apply H3. intros k l'' [].
+    Qed.
+
+    Lemma inv_path : forall p v v', inv v -> vnav_path dcount r v p = Ok v' -> inv v'.
+    Proof.
+      induction p as [|s p IH]; intros v v' Hi E; cbn [vnav_path] in E; [inversion E; now subst|].
+      destruct (vnav_step dcount r v s) as [v1|e] eqn:Es; [|discriminate].
+      apply (IH v1); [|exact E]. destruct s as [k|i]; cbn [vnav_step] in Es; [eapply inv_name|eapply inv_index]; eauto.
+    Qed.
+
+    (* ---- containment: a child reached by a name that is not a $ref placeholder *)
+    Definition ref_prop (v : vnav) (k : key) : bool :=
+      match vn_loc v with
+      | WObj _ _ ps => match wfind k ps with Some (WRef _ _) => true | _ => false end
+      | _ => false
+      end.
+
+    Lemma name_inside : forall v k v', inv v -> vnav_name v k = Ok v' -> ref_prop v k = false ->
+      wstart (vn_loc v) <= wstart (vn_loc v') /\ wend (vn_loc v') <= wend (vn_loc v).
+    Proof.
+      intros [l an] k v' [Hw Ha] E Hr. unfold vnav_name, ref_prop in *. cbn [vn_loc vn_an] in *.
+      destruct l as [a st sz|st sz isz cnt it sch|st sz ps|st sz alts|st t]; try discriminate.
+      destruct (wfind k ps) as [c|] eqn:Ef; [|discriminate]. cbn [wf] in Hw. destruct Hw as [Hp Hc].
+      destruct (wf_props_find _ _ _ _ Hp Ef) as [_ [G1 G2]].
+      destruct c as [a' st' sz'|st' sz' isz' cnt' it' sch'|st' sz' ps'|st' sz' alts'|st' t']; try discriminate;
+        inversion E; subst v'; cbn [vn_loc wstart] in *; unfold wend in *; cbn [wstart wsize] in *; lia.
+    Qed.
+
+    (* ---- one occurrence of an ODO-free item: the first occurrence, moved *)
+    Lemma index_shift : forall v st sz isz cnt it sch i,
+      inv v -> vn_loc v = WArr st sz isz cnt it sch -> odo_free sch = true -> i < cnt ->
+      exists an', vnav_index dcount r v i = Ok (mkvnav (wshift (isz * i) it) an').
+    Proof.
+      intros [l an] st sz isz cnt it sch i [Hw _] Hl Hof Hi. cbn [vn_loc] in *. subst l. cbn [wf] in Hw.
+      destruct Hw as [_ [_ [_ [_ [an0 [an1 Ew]]]]]].
+      destruct (proj1 (walkv_shift r) sch Hof _ _ _ _ Ew) as [new [_ Hs]].
+      unfold vnav_index. cbn [vn_loc]. destruct (cnt <=? i) eqn:E; [apply Nat.leb_le in E; lia|].
+      rewrite Hs. eexists. reflexivity.
+    Qed.
+
+    Lemma index_inside : forall v st sz isz cnt it sch i v',
+      inv v -> vn_loc v = WArr st sz isz cnt it sch -> odo_free sch = true ->
+      vnav_index dcount r v i = Ok v' ->
+      wstart (vn_loc v') = st + isz * i /\ wsize (vn_loc v') = isz
+      /\ wstart (vn_loc v) <= wstart (vn_loc v') /\ wend (vn_loc v') <= wend (vn_loc v).
+    Proof.
+      intros v st sz isz cnt it sch i v' Hinv Hl Hof E.
+      assert (Hi : i < cnt).
+      { unfold vnav_index in E. rewrite Hl in E. destruct (cnt <=? i) eqn:Ec; [discriminate|]. now apply Nat.leb_gt in Ec. }
+      destruct (index_shift v _ _ _ _ _ _ i Hinv Hl Hof Hi) as [an' E']. rewrite E' in E. inversion E; subst v'.
+      destruct Hinv as [Hw _]. rewrite Hl in Hw. cbn [wf] in Hw. destruct Hw as [H1 [H2 [H3 _]]].
+      cbn [vn_loc]. rewrite wstart_shift, wsize_shift. rewrite Hl. unfold wend. rewrite wstart_shift, wsize_shift.
+      cbn [wstart wsize]. subst sz. repeat split; try lia. nia.
+    Qed.
+
+    (* ---- simple (no $ref, no ODO) schemas give $ref-free trees *)
+    Lemma walkv_simple_reffree :
+      (forall s, simple s = true -> forall st an l an', walkv dcount r s st an = Ok (l, an') -> ref_free l = true)
+      /\ (forall ps, simple_props ps = true -> forall off an pls off' an', walkv_props dcount r ps off an = Ok (pls, off', an') -> ref_free_props pls = true)
+      /\ (forall alts, simple_alts alts = true -> forall st an als an', walkv_alts dcount r alts st an = Ok (als, an') -> ref_free_alts als = true).
+    Proof.
+      apply js_props_alts_ind.
+      - intros a sz _ st an l an' E. rewrite walkv_atom in E. inversion E; subst. reflexivity.
+      - intros a n its IH Hs st an l an' E. cbn [simple simple_props simple_alts] in Hs. rewrite walkv_arr in E.
+        destruct (walkv dcount r its st an) as [[sub an1]|e] eqn:Es; [|discriminate]. inversion E; subst.
+        cbn [ref_free]. eauto.
+      - intros a c its _ Hs. discriminate.
+      - intros a ps IH Hs st an l an' E. cbn [simple simple_props simple_alts] in Hs. rewrite walkv_obj in E.
+        destruct (walkv_props dcount r ps st an) as [[[pls off] an1]|e] eqn:Es; [|discriminate]. inversion E; subst.
+        cbn [ref_free]. eauto.
+      - intros a alts IH Hs st an l an' E. cbn [simple simple_props simple_alts] in Hs.
+        destruct alts as [|s0 rest]; [discriminate|]. rewrite walkv_one in E.
+        destruct (walkv_alts dcount r (ACons s0 rest) st an) as [[als an1]|e] eqn:Es; [|discriminate]. inversion E; subst.
+        cbn [ref_free]. eauto.
+      - intros t Hs. discriminate.
+      - intros _ off an pls off' an' E. rewrite walkv_props_nil in E. inversion E; subst. reflexivity.
+      - intros k s IHs rest IHr Hs off an pls off' an' E. cbn [simple simple_props simple_alts] in Hs.
+        apply andb_prop in Hs. destruct Hs as [Hs1 Hs2]. rewrite walkv_props_cons in E.
+        destruct (walkv dcount r s off an) as [[pl an1]|e] eqn:Es; [|discriminate].
+        destruct (walkv_props dcount r rest (off + wsize pl) (wreg (js_anchor s) pl an1)) as [[[rl off1] an2]|e] eqn:Er; [|discriminate].
+        inversion E; subst. cbn [ref_free_props]. rewrite (IHs Hs1 _ _ _ _ Es), (IHr Hs2 _ _ _ _ _ Er). reflexivity.
+      - intros _ st an als an' E. rewrite walkv_alts_nil in E. inversion E; subst. reflexivity.
+      - intros s IHs rest IHr Hs st an als an' E. cbn [simple simple_props simple_alts] in Hs.
+        apply andb_prop in Hs. destruct Hs as [Hs1 Hs2]. rewrite walkv_alts_cons in E.
+        destruct (walkv dcount r s st an) as [[l an1]|e] eqn:Es; [|discriminate].
+        destruct (walkv_alts dcount r rest st an1) as [[ls an2]|e] eqn:Er; [|discriminate].
+        inversion E; subst. cbn [ref_free_alts]. rewrite (IHs Hs1 _ _ _ _ Es), (IHr Hs2 _ _ _ _ Er). reflexivity.
+    Qed.
+
+    (* ---- whole and part: indices, for items without $ref and without ODO *)
+    Theorem commute_index_simple : forall v st sz isz cnt it sch (xs : list pvA) i,
+      inv v -> vn_loc v = WArr st sz isz cnt it sch -> simple sch = true ->
+      vnav_value r dec v = Some (Ok (PList xs)) -> i < cnt ->
+      exists v' x, vnav_index dcount r v i = Ok v' /\ nth_error xs i = Some x /\ vnav_value r dec v' = Some (Ok x).
+    Proof.
+      intros v st sz isz cnt it sch xs i Hinv Hl Hs Hv Hi.
+      pose proof (proj1 simple_odo_free _ Hs) as Hof.
+      destruct (index_shift v _ _ _ _ _ _ i Hinv Hl Hof Hi) as [an' E'].
+      assert (Hrf : ref_free it = true).
+      { destruct Hinv as [Hw _]. rewrite Hl in Hw. cbn [wf] in Hw. destruct Hw as [_ [_ [_ [_ [an0 [an1 Ew]]]]]].
+        exact (proj1 walkv_simple_reffree _ Hs _ _ _ _ Ew). }
+      destruct v as [l an]. cbn [vn_loc] in Hl. subst l. unfold vnav_value in *. cbn [vn_loc vn_an] in *.
+      assert (Hb : forall F an0, exists dr, wvalue r dec F an0 = value_body r dec an0 dr).
+      { intros F an0. destruct F as [|f]; [exists (fun _ _ => None); apply wvalue_0|exists (wvalue r dec f an0); apply wvalue_S]. }
+      destruct (Hb (length an) an) as [dr Hw]. rewrite Hw, vb_arr in Hv.
+      destruct (seq_values (fun j => value_body r dec an dr it (0 + j * isz)) cnt 0) as [[ys|e]|] eqn:Es; try discriminate.
+      inversion Hv; subst ys. destruct (seq_values_nth _ _ _ _ Es) as [_ Hn]. destruct (Hn i Hi) as [x [Hx1 Hx2]].
+      eexists. exists x. split; [exact E'|]. split; [exact Hx1|]. cbn [vn_loc vn_an].
+      destruct (Hb (length an') an') as [dr' Hw']. rewrite Hw'.
+      rewrite (proj1 (shift_reffree r an dr an' dr' (isz * i)) it Hrf 0).
+      rewrite <- Hx2. f_equal. lia.
+    Qed.
+  End Shape.
+
+  (* ---------------------------------------------------------------- NDNav.index takes any Python int *)
+  Lemma index_start_nat : forall (v : vnav) st sz isz cnt it sch i,
+    vn_loc v = WArr st sz isz cnt it sch -> i < cnt ->
+    index_start_z v (Z.of_nat i) = Ok (Z.of_nat (st + isz * i)).
+  Proof.
+    intros v st sz isz cnt it sch i Hl Hi. unfold index_start_z. rewrite Hl.
+    destruct (Z.of_nat cnt <=? Z.of_nat i)%Z eqn:E; [apply Z.leb_le in E; lia|]. f_equal. lia.
+  Qed.
+
+  Lemma index_start_negative : forall (v : vnav) st sz isz cnt it sch z,
+    vn_loc v = WArr st sz isz cnt it sch -> (z < 0)%Z ->
+    index_start_z v z = Ok (Z.of_nat st + Z.of_nat isz * z)%Z.
+  Proof.
+    intros v st sz isz cnt it sch z Hl Hz. unfold index_start_z. rewrite Hl.
+    destruct (Z.of_nat cnt <=? z)%Z eqn:E; [apply Z.leb_le in E; lia|]. reflexivity.
+  Qed.
+
+  (* ---------------------------------------------------------------- a $ref occurring inside a location *)
+  Fixpoint sub_ref (l : wloc) (st0 : nat) (t0 : key) : Prop :=
+    match l with
+    | WAtom _ _ _ => False
+    | WArr _ _ _ _ it _ => sub_ref it st0 t0
+    | WObj _ _ ps => sub_ref_props ps st0 t0
+    | WOne _ _ alts => sub_ref_alts alts st0 t0
+    | WRef st t => st = st0 /\ t = t0
+    end
+  with sub_ref_props (ps : wprops) (st0 : nat) (t0 : key) : Prop :=
+    match ps with WPNil => False | WPCons _ l r => sub_ref l st0 t0 \/ sub_ref_props r st0 t0 end
+  with sub_ref_alts (ls : walts) (st0 : nat) (t0 : key) : Prop :=
+    match ls with WANil => False | WACons l r => sub_ref l st0 t0 \/ sub_ref_alts r st0 t0 end.
+
+  (* ---------------------------------------------------------------- without ODO the tree does not depend on the record *)
+  Lemma walkv_record_free : forall (r r' : list B),
+    (forall s, odo_free s = true -> forall st an, walkv dcount r s st an = walkv dcount r' s st an)
+    /\ (forall ps, odo_free_props ps = true -> forall off an, walkv_props dcount r ps off an = walkv_props dcount r' ps off an)
+    /\ (forall alts, odo_free_alts alts = true -> forall st an, walkv_alts dcount r alts st an = walkv_alts dcount r' alts st an).
+  Proof.
+    intros r r'. apply js_props_alts_ind.
+    - reflexivity.
+    - intros a n its IH Hof st an. cbn [odo_free odo_free_props odo_free_alts] in Hof. rewrite !walkv_arr. now rewrite IH.
+    - intros a c its _ Hof. discriminate.
+    - intros a ps IH Hof st an. cbn [odo_free odo_free_props odo_free_alts] in Hof. rewrite !walkv_obj. now rewrite IH.
+    - intros a alts IH Hof st an. cbn [odo_free odo_free_props odo_free_alts] in Hof.
+      destruct alts as [|s0 rest]; [reflexivity|]. rewrite !walkv_one. now rewrite IH.
+    - reflexivity.
+    - reflexivity.
+    - intros k s IHs rest IHr Hof off an. cbn [odo_free odo_free_props odo_free_alts] in Hof.
+      apply andb_prop in Hof. destruct Hof as [H1 H2]. rewrite !walkv_props_cons. rewrite IHs by exact H1.
+      destruct (walkv dcount r' s off an) as [[pl an1]|e]; [|reflexivity]. now rewrite IHr.
+    - reflexivity.
+    - intros s IHs rest IHr Hof st an. cbn [odo_free odo_free_props odo_free_alts] in Hof.
+      apply andb_prop in Hof. destruct Hof as [H1 H2]. rewrite !walkv_alts_cons. rewrite IHs by exact H1.
+      destruct (walkv dcount r' s st an) as [[l an1]|e]; [|reflexivity]. now rewrite IHr.
+  Qed.
+
+  (* ---------------------------------------------------------------- footprint of $ref-free, well-shaped trees *)
+  Lemma foot_reffree_inside : forall (r : list B) an df,
+    (forall l, wf r l -> ref_free l = true -> forall o a b, In (a, b) (foot_body an df l o) ->
+       wstart l + o <= a /\ b <= wend l + o)
+    /\ (forall ps, forall off, wf_props r ps off -> ref_free_props ps = true -> forall o a b, In (a, b) (foot_props an df ps o) ->
+       off + o <= a /\ b <= chain ps off + o)
+    /\ (forall ls, forall st sz, wf_alts r ls st sz -> ref_free_alts ls = true ->
+       first_alt (fun l => forall o a b, In (a, b) (foot_body an df l o) -> st + o <= a /\ b <= st + sz + o) ls).
+  Proof.
+    intros r an df. apply wloc_wprops_walts_ind.
+    - intros a st sz _ _ o x y H. rewrite fb_atom in H. destruct H as [H|[]]. inversion H; subst. unfold wend. cbn [wstart wsize]. lia.
+    - intros st sz isz cnt it IH sch Hw Hrf o x y H. cbn [wf ref_free ref_free_props ref_free_alts] in *.
+      destruct Hw as [H1 [H2 [H3 [H4 _]]]]. rewrite fb_arr in H. apply in_flat_map in H. destruct H as [j [Hj Hin]].
+      apply in_seq in Hj. destruct (IH H4 Hrf _ _ _ Hin) as [G1 G2]. unfold wend in *. cbn [wstart wsize]. rewrite H1, H2 in *. subst sz.
+      split; [lia|]. nia.
+    - intros st sz ps IH Hw Hrf o x y H. cbn [wf ref_free ref_free_props ref_free_alts] in *. destruct Hw as [H1 H2].
+      rewrite fb_obj in H. destruct (IH st H1 Hrf _ _ _ H) as [G1 G2]. unfold wend. cbn [wstart wsize]. lia.
+    - intros st sz alts IH Hw Hrf o x y H. cbn [wf ref_free ref_free_props ref_free_alts] in *. rewrite fb_one in H.
+      destruct alts as [|first rest]; [destruct H|]. specialize (IH st sz Hw Hrf). cbn [first_alt] in IH.
+      destruct (IH _ _ _ H) as [G1 G2]. unfold wend. cbn [wstart wsize]. lia.
+    - intros st t _ Hrf. discriminate.
+    - intros off _ _ o x y H. destruct H.
+    - intros k l IHl rest IHr off Hw Hrf o x y H. cbn [wf_props ref_free ref_free_props ref_free_alts chain] in *.
+      destruct Hw as [H1 [H2 H3]]. apply andb_prop in Hrf. destruct Hrf as [R1 R2]. rewrite fp_cons in H.
+      apply in_app_or in H. destruct H as [H|H].
+      + destruct (IHl H2 R1 _ _ _ H) as [G1 G2]. unfold wend in G2. pose proof (chain_ge rest (off + wsize l)). lia.
+      + destruct (IHr _ H3 R2 _ _ _ H) as [G1 G2]. lia.
+    - intros st sz _ _. exact I.
+    - intros l IHl rest _ st sz Hw Hrf. cbn [wf_alts ref_free ref_free_props ref_free_alts first_alt] in *.
+      destruct Hw as [H1 [H2 [H3 _]]]. apply andb_prop in Hrf. destruct Hrf as [R1 _].
+      intros o x y H. destruct (IHl H3 R1 _ _ _ H) as [G1 G2]. unfold wend in G2. lia.
+  Qed.
+
+  Lemma foot_inside_reffree : forall (r : list B) (v : vnav),
+    inv r v -> ref_free (vn_loc v) = true -> foot_inside v = true.
+  Proof.
+    intros r [l an] [Hw _] Hrf. cbn [vn_loc] in *. unfold foot_inside, vnav_foot. cbn [vn_loc vn_an].
+    apply forallb_forall. intros [a b] Hin. cbn [fst snd].
+    assert (Hb : exists df, wfoot (length an) an = foot_body an df).
+    { destruct (length an) as [|f]; [exists (fun _ _ => []); apply wfoot_0|exists (wfoot f an); apply wfoot_S]. }
+    destruct Hb as [df Hf]. rewrite Hf in Hin.
+    destruct (proj1 (foot_reffree_inside r an df) l Hw Hrf _ _ _ Hin) as [G1 G2].
+    apply andb_true_intro. split; apply Nat.leb_le; lia.
+  Qed.
+
+  (* trees of simple schemas: no $ref, and every table remembers a simple items schema *)
+  Fixpoint simple_loc (l : wloc) : bool :=
+    match l with
+    | WAtom _ _ _ => true
+    | WArr _ _ _ _ it sch => simple sch && simple_loc it
+    | WObj _ _ ps => simple_loc_props ps
+    | WOne _ _ alts => simple_loc_alts alts
+    | WRef _ _ => false
+    end
+  with simple_loc_props (ps : wprops) : bool :=
+    match ps with WPNil => true | WPCons _ l r => simple_loc l && simple_loc_props r end
+  with simple_loc_alts (ls : walts) : bool :=
+    match ls with WANil => true | WACons l r => simple_loc l && simple_loc_alts r end.
+
+  Lemma simple_loc_reffree :
+    (forall l, simple_loc l = true -> ref_free l = true)
+    /\ (forall ps, simple_loc_props ps = true -> ref_free_props ps = true)
+    /\ (forall ls, simple_loc_alts ls = true -> ref_free_alts ls = true).
+  Proof.
+    apply wloc_wprops_walts_ind; cbn [simple_loc simple_loc_props simple_loc_alts ref_free ref_free_props ref_free_alts]; intros; auto.
+    - apply andb_prop in H0. destruct H0. auto.
+    - apply andb_prop in H1. destruct H1. rewrite H, H0; auto.
+    - apply andb_prop in H1. destruct H1. rewrite H, H0; auto.
+  Qed.
+
+  Lemma walkv_simple_loc : forall (r : list B),
+    (forall s, simple s = true -> forall st an l an', walkv dcount r s st an = Ok (l, an') -> simple_loc l = true)
+    /\ (forall ps, simple_props ps = true -> forall off an pls off' an', walkv_props dcount r ps off an = Ok (pls, off', an') -> simple_loc_props pls = true)
+    /\ (forall alts, simple_alts alts = true -> forall st an als an', walkv_alts dcount r alts st an = Ok (als, an') -> simple_loc_alts als = true).
+  Proof.
+    intros r. apply js_props_alts_ind.
+    - intros a sz _ st an l an' E. rewrite walkv_atom in E. inversion E; subst. reflexivity.
+    - intros a n its IH Hs st an l an' E. cbn [simple simple_props simple_alts] in Hs. rewrite walkv_arr in E.
+      destruct (walkv dcount r its st an) as [[sub an1]|e] eqn:Es; [|discriminate]. inversion E; subst.
+      cbn [simple_loc]. rewrite Hs. cbn. eauto.
+    - intros a c its _ Hs. discriminate.
+    - intros a ps IH Hs st an l an' E. cbn [simple simple_props simple_alts] in Hs. rewrite walkv_obj in E.
+      destruct (walkv_props dcount r ps st an) as [[[pls off] an1]|e] eqn:Es; [|discriminate]. inversion E; subst.
+      cbn [simple_loc]. eauto.
+    - intros a alts IH Hs st an l an' E. cbn [simple simple_props simple_alts] in Hs.
+      destruct alts as [|s0 rest]; [discriminate|]. rewrite walkv_one in E.
+      destruct (walkv_alts dcount r (ACons s0 rest) st an) as [[als an1]|e] eqn:Es; [|discriminate]. inversion E; subst.
+      cbn [simple_loc]. eauto.
+    - intros t Hs. discriminate.
+    - intros _ off an pls off' an' E. rewrite walkv_props_nil in E. inversion E; subst. reflexivity.
+    - intros k s IHs rest IHr Hs off an pls off' an' E. cbn [simple simple_props simple_alts] in Hs.
+      apply andb_prop in Hs. destruct Hs as [Hs1 Hs2]. rewrite walkv_props_cons in E.
+      destruct (walkv dcount r s off an) as [[pl an1]|e] eqn:Es; [|discriminate].
+      destruct (walkv_props dcount r rest (off + wsize pl) (wreg (js_anchor s) pl an1)) as [[[rl off1] an2]|e] eqn:Er; [|discriminate].
+      inversion E; subst. cbn [simple_loc_props]. rewrite (IHs Hs1 _ _ _ _ Es), (IHr Hs2 _ _ _ _ _ Er). reflexivity.
+    - intros _ st an als an' E. rewrite walkv_alts_nil in E. inversion E; subst. reflexivity.
+    - intros s IHs rest IHr Hs st an als an' E. cbn [simple simple_props simple_alts] in Hs.
+      apply andb_prop in Hs. destruct Hs as [Hs1 Hs2]. rewrite walkv_alts_cons in E.
+      destruct (walkv dcount r s st an) as [[l an1]|e] eqn:Es; [|discriminate].
+      destruct (walkv_alts dcount r rest st an1) as [[ls an2]|e] eqn:Er; [|discriminate].
+      inversion E; subst. cbn [simple_loc_alts]. rewrite (IHs Hs1 _ _ _ _ Es), (IHr Hs2 _ _ _ _ Er). reflexivity.
+  Qed.
+
+  Lemma simple_loc_find : forall ps k c, simple_loc_props ps = true -> wfind k ps = Some c -> simple_loc c = true.
+  Proof.
+    induction ps as [|k0 l rest IH]; intros k c Hs Hf; [discriminate|]. cbn [simple_loc_props wfind] in *.
+    apply andb_prop in Hs. destruct Hs as [H1 H2]. destruct (key_eqb k k0); [inversion Hf; now subst|eauto].
+  Qed.
+
+  Lemma simple_path : forall (r : list B) p v v',
+    simple_loc (vn_loc v) = true -> vnav_path dcount r v p = Ok v' -> simple_loc (vn_loc v') = true.
+  Proof.
+    intros r. induction p as [|s p IH]; intros v v' Hs E; cbn [vnav_path] in E; [inversion E; now subst|].
+    destruct (vnav_step dcount r v s) as [v1|e] eqn:Es; [|discriminate]. apply (IH v1); [|exact E].
+    destruct v as [l an]. cbn [vn_loc] in Hs. destruct s as [k|i]; cbn [vnav_step] in Es.
+    - unfold vnav_name in Es. cbn [vn_loc vn_an] in Es.
+      destruct l as [a st sz|st sz isz cnt it sch|st sz ps|st sz alts|st t]; try discriminate.
+      destruct (wfind k ps) as [c|] eqn:Ef; [|discriminate]. cbn [simple_loc] in Hs.
+      pose proof (simple_loc_find _ _ _ Hs Ef) as Hc.
+      destruct c as [a' st' sz'|st' sz' isz' cnt' it' sch'|st' sz' ps'|st' sz' alts'|st' t']; try discriminate;
+        inversion Es; subst v1; exact Hc.
+    - unfold vnav_index in Es. cbn [vn_loc vn_an] in Es.
+      destruct l as [a st sz|st sz isz cnt it sch|st sz ps|st sz alts|st t]; try discriminate.
+      destruct (cnt <=? i); [discriminate|]. cbn [simple_loc] in Hs. apply andb_prop in Hs. destruct Hs as [Hsch _].
+      destruct (walkv dcount r sch (st + isz * i) []) as [[l' an']|e] eqn:Ew; [|discriminate]. inversion Es; subst v1.
+      exact (proj1 (walkv_simple_loc r) _ Hsch _ _ _ _ Ew).
+  Qed.
+
+  Theorem foot_inside_simple : forall (r : list B) s p v0 v,
+    simple s = true -> vnav_of dcount r s = Ok v0 -> vnav_path dcount r v0 p = Ok v -> foot_inside v = true.
+  Proof.
+    intros r s p v0 v Hs H0 Hp. apply (foot_inside_reffree r).
+    - exact (inv_path r p v0 v (inv_of r s v0 H0) Hp).
+    - apply (proj1 simple_loc_reffree). apply (simple_path r p v0 v); [|exact Hp].
+      unfold vnav_of in H0. destruct (walkv dcount r s 0 []) as [[l an]|e] eqn:Ew; [|discriminate]. inversion H0; subst.
+      exact (proj1 (walkv_simple_loc r) _ Hs _ _ _ _ Ew).
+  Qed.
+
+  Lemma index_refused : forall (r : list B) (v : vnav) st sz isz cnt it sch i,
+    vn_loc v = WArr st sz isz cnt it sch -> cnt <= i -> vnav_index dcount r v i = Err IndexError.
+  Proof.
+    intros r v st sz isz cnt it sch i Hl Hi. unfold vnav_index. rewrite Hl.
+    destruct (cnt <=? i) eqn:E; [reflexivity|]. apply Nat.leb_gt in E. lia.
+  Qed.
+
+End Value.
+
+(* ------------------------------------------------------------------ the tie to C01's layout model *)
+Section Erase.
+  Variable B : Type.
+  Variable dcount : list B -> nat.
+  Variable r : list B.
+
+  Lemma lsize_erase : forall l, lsize (erase l) = wsize l.
+  Proof. destruct l; reflexivity. Qed.
+  Lemma lstart_erase : forall l, lstart (erase l) = wstart l.
+  Proof. destruct l; reflexivity. Qed.
+  Lemma max_size_erase : forall ls, max_size (erase_alts ls) = wmax_size ls.
+  Proof. induction ls as [|l rest IH]; [reflexivity|]. cbn [erase_alts max_size wmax_size]. now rewrite lsize_erase, IH. Qed.
+  Lemma lookup_erase : forall k an, lookup k (erase_an an) = option_map erase (wlookup k an).
+  Proof.
+    intros k an. induction an as [|[k' l] an IH]; [reflexivity|]. cbn [erase_an map lookup wlookup fst snd].
+    destruct (key_eqb k k'); [reflexivity|exact IH].
+  Qed.
+  Lemma reg_erase : forall a l an, reg a (erase l) (erase_an an) = erase_an (wreg a l an).
+  Proof. intros a l an. destruct a; reflexivity. Qed.
+  Lemma find_prop_erase : forall k ps, find_prop k (erase_props ps) = option_map erase (wfind k ps).
+  Proof.
+    intros k ps. induction ps as [|k' l rest IH]; [reflexivity|]. cbn [erase_props find_prop wfind].
+    destruct (key_eqb k k'); [reflexivity|exact IH].
+  Qed.
+
+  Definition erase_res (x : res (wloc * wanchors)) : res (loc * anchors) :=
+    match x with Ok (l, an) => Ok (erase l, erase_an an) | Err e => Err e end.
+
+  (* LocationMaker.walk of Model/LayoutValue.v is LocationMaker.walk of Model/Layout.v (C01) with the atoms annotated *)
+  Lemma walkv_erase :
+    (forall s st an, walk dcount r s st (erase_an an) = erase_res (walkv dcount r s st an))
+    /\ (forall ps off an, walk_props dcount r ps off (erase_an an) =
+          match walkv_props dcount r ps off an with
+          | Ok (pls, off', an') => Ok (erase_props pls, off', erase_an an') | Err e => Err e end)
+    /\ (forall alts st an, walk_alts dcount r alts st (erase_an an) =
+          match walkv_alts dcount r alts st an with
+          | Ok (als, an') => Ok (erase_alts als, erase_an an') | Err e => Err e end).
+  Proof.
+    apply js_props_alts_ind.
+    - intros a sz st an. rewrite walkv_atom. cbn [walk erase_res erase]. now rewrite <- reg_erase.
+    - intros a n its IH st an. rewrite walkv_arr. cbn [walk]. rewrite IH.
+      destruct (walkv dcount r its st an) as [[sub an1]|e]; [|reflexivity]. cbn [erase_res erase].
+      rewrite lsize_erase. now rewrite <- reg_erase.
+    - intros a c its IH st an. rewrite walkv_odo. cbn [walk]. rewrite lookup_erase.
+      destruct (wlookup (KName c) an) as [[ca cst csz| | | |]|]; try reflexivity.
+      cbn [option_map erase]. rewrite IH.
+      destruct (walkv dcount r its st an) as [[sub an1]|e]; [|reflexivity]. cbn [erase_res erase].
+      rewrite lsize_erase. now rewrite <- reg_erase.
+    - intros a ps IH st an. rewrite walkv_obj. cbn [walk]. rewrite IH.
+      destruct (walkv_props dcount r ps st an) as [[[pls off] an1]|e]; [|reflexivity]. cbn [erase_res erase].
+      now rewrite <- reg_erase.
+    - intros a alts IH st an. destruct alts as [|s0 rest]; [reflexivity|]. rewrite walkv_one.
+      change (walk dcount r (JOne a (ACons s0 rest)) st (erase_an an)) with
+        (match walk_alts dcount r (ACons s0 rest) st (erase_an an) with
+         | Err e => Err e
+         | Ok (als, an1) => Ok (LOne st (max_size als) als, reg a (LOne st (max_size als) als) an1) end).
+      rewrite IH.
+      destruct (walkv_alts dcount r (ACons s0 rest) st an) as [[als an1]|e]; [|reflexivity]. cbn [erase_res erase].
+      rewrite max_size_erase. now rewrite <- reg_erase.
+    - intros t st an. reflexivity.
+    - intros off an. reflexivity.
+    - intros k s IHs rest IHr off an. rewrite walkv_props_cons.
+      change (walk_props dcount r (PCons k s rest) off (erase_an an)) with
+        (match walk dcount r s off (erase_an an) with
+         | Err e => Err e
+         | Ok (pl, an1) =>
+             match walk_props dcount r rest (off + lsize pl) (reg (js_anchor s) pl an1) with
+             | Err e => Err e
+             | Ok (rl, off', an2) => Ok (LPCons k pl rl, off', an2)
+             end
+         end).
+      rewrite IHs. destruct (walkv dcount r s off an) as [[pl an1]|e]; [|reflexivity]. cbn [erase_res].
+      rewrite lsize_erase, reg_erase, IHr.
+      destruct (walkv_props dcount r rest (off + wsize pl) (wreg (js_anchor s) pl an1)) as [[[rl off1] an2]|e]; reflexivity.
+    - intros st an. reflexivity.
+    - intros s IHs rest IHr st an. rewrite walkv_alts_cons.
+      change (walk_alts dcount r (ACons s rest) st (erase_an an)) with
+        (match walk dcount r s st (erase_an an) with
+         | Err e => Err e
+         | Ok (l, an1) =>
+             match walk_alts dcount r rest st an1 with
+             | Err e => Err e
+             | Ok (ls, an2) => Ok (LACons l ls, an2)
+             end
+         end).
+      rewrite IHs. destruct (walkv dcount r s st an) as [[l an1]|e]; [|reflexivity]. cbn [erase_res].
+      rewrite IHr. destruct (walkv_alts dcount r rest st an1) as [[ls an2]|e]; reflexivity.
+  Qed.
+
+  Definition erase_nav (v : vnav) : nav := mknav (erase (vn_loc v)) (erase_an (vn_an v)).
+  Definition erase_rnav (x : res vnav) : res nav := match x with Ok v => Ok (erase_nav v) | Err e => Err e end.
+
+  Lemma nav_of_erase : forall s, nav_of dcount r s = erase_rnav (vnav_of dcount r s).
+  Proof.
+    intros s. unfold nav_of, vnav_of. change (@nil (key * loc)) with (erase_an []).
+    rewrite (proj1 walkv_erase). destruct (walkv dcount r s 0 []) as [[l an]|e]; reflexivity.
+  Qed.
+
+  Lemma nav_name_erase : forall v k, nav_name (erase_nav v) k = erase_rnav (vnav_name v k).
+  Proof.
+    intros [l an] k. unfold nav_name, vnav_name, erase_nav. cbn [n_loc n_an vn_loc vn_an].
+    destruct l as [a st sz|st sz isz cnt it sch|st sz ps|st sz alts|st t]; try reflexivity.
+    cbn [erase]. rewrite find_prop_erase. destruct (wfind k ps) as [c|]; [|reflexivity]. cbn [option_map].
+    destruct c as [a' st' sz'|st' sz' isz' cnt' it' sch'|st' sz' ps'|st' sz' alts'|st' t']; try reflexivity.
+    cbn [erase]. rewrite lookup_erase. destruct (wlookup t' an); reflexivity.
+  Qed.
+
+  Lemma nav_index_erase : forall v i, nav_index dcount r (erase_nav v) i = erase_rnav (vnav_index dcount r v i).
+  Proof.
+    intros [l an] i. unfold nav_index, vnav_index, erase_nav. cbn [n_loc n_an vn_loc vn_an].
+    destruct l as [a st sz|st sz isz cnt it sch|st sz ps|st sz alts|st t]; try reflexivity.
+    cbn [erase]. destruct (cnt <=? i); [reflexivity|]. change (@nil (key * loc)) with (erase_an []).
+    rewrite (proj1 walkv_erase). destruct (walkv dcount r sch (st + isz * i) []) as [[l' an']|e]; reflexivity.
+  Qed.
+
+  Lemma nav_raw_erase : forall v, nav_raw r (erase_nav v) = vnav_raw r v.
+  Proof. intros [l an]. unfold nav_raw, vnav_raw, erase_nav, lend, wend. cbn [n_loc vn_loc]. now rewrite lstart_erase, lsize_erase. Qed.
+End Erase.
